@@ -174,6 +174,11 @@ fn spawn_shard(p: &PropDef, tier: Tier, seed: u64, shard: usize, attempt: u32) -
             out.to_str().unwrap(),
         ])
         .stdin(Stdio::null())
+        .stderr(
+            std::fs::File::create(out.with_extension("stderr"))
+                .map(Stdio::from)
+                .unwrap_or_else(|_| Stdio::inherit()),
+        )
         .spawn()
         .expect("spawn child");
     Child {
@@ -246,7 +251,13 @@ fn run_parent(p: &PropDef, tier: Tier, seed: u64) -> i32 {
                             None => exit_inconclusive.push(format!("shard {} wrote no result", c.shard)),
                         }
                     } else if status.code() == Some(3) || status.code() == Some(101) {
-                        exit_inconclusive.push(format!("shard {} failed inside the harness ({status})", c.shard));
+                        let err = std::fs::read_to_string(c.out.with_extension("stderr")).unwrap_or_default();
+                        let tail: Vec<&str> = err.lines().rev().take(6).collect();
+                        exit_inconclusive.push(format!(
+                            "shard {} failed inside the harness ({status}): {}",
+                            c.shard,
+                            tail.into_iter().rev().collect::<Vec<_>>().join(" | ")
+                        ));
                     } else {
                         // killed by a signal (native stack overflow, abort): the case in flight is the culprit
                         crashes += 1;
